@@ -54,10 +54,20 @@ def analyse(ctx, key, f):
     if not obj:
         raise AnalysisError('%s: no local is bound to self._bootstrap_objective(...)' % f.qualname)
     evals = []
+    unwrapped = {}
     for s in stmts_of(f.node):
         if not (isinstance(s, ast.Assign) and len(s.targets) == 1 and isinstance(s.targets[0], ast.Name) and isinstance(s.value, ast.Call)):
             continue
         c = s.value
+        # the evaluation may be wrapped in a pure helper of the package that only unwraps a one-element result
+        # (`_as_scalar(cost(trial))`): the helper's value over the energy must be the energy itself or its element 0 / ravel
+        if isinstance(c.func, ast.Name) and c.func.id not in obj and len(c.args) == 1 and isinstance(c.args[0], ast.Call) and not c.keywords:
+            from .common import helper_value
+            hv = helper_value(ctx, f, c.func.id, (E,), ())
+            if hv is not None and all(leaf == E or leaf == ('sub', E, T.num(0)) or (leaf[0] == 'call' and T.show(leaf[1]).endswith('ravel') and leaf[2] == (E,))
+                                      for cl, leaf in T.cases(T.simp(hv))):
+                c = c.args[0]
+                unwrapped[id(s)] = c
         if isinstance(c.func, ast.Name) and c.func.id in obj and len(c.args) == 1:
             evals.append((s, 'direct'))
         elif self_call(c, '_map', sn) and len(c.args) >= 2 and isinstance(c.args[0], ast.Name) and c.args[0].id in obj:
@@ -138,7 +148,8 @@ def analyse(ctx, key, f):
                     if any(st is s for s, _ in evals):
                         b.env[EV] = E
                         evaluated = True
-                        at = st.value.args[0] if mode == 'direct' else st.value.args[1]
+                        callnode = unwrapped.get(id(st), st.value)
+                        at = callnode.args[0] if mode == 'direct' else callnode.args[1]
                         evaluated_at = T.simp(b.t(at))
                         continue
                     v = T.simp(b.t(st.value))
